@@ -20,7 +20,21 @@ def general_scenario(rng, i, tier, extra_prof=None):
         prof.update(p_continue=1.0)
     elif m == 3:
         prof.update(p_reset=1.0)
+    coast = m == 5 and rng.random() < 0.4
+    if coast:
+        # coasting: a free (not self-locking) chain with the motor switched off (duty cycle inside the dead zone, so the
+        # driving torque is exactly zero) and a load that is exactly zero for (part of) the run: zero net torque while moving
+        force = False
+        prof.update(p_currents=1.0, p_ic_zero=0.0, p_speed_load=0.0, p_pos_load=0.0, p_time_load=0.0, p_worm=0.0)
     spec = GEN.gen_scenario(rng, prof, force_selflock=force)
+    if coast:
+        spec['load'].update(A=0.0, B=0.0, C=0.0, S=0.0, W=0.0)
+        spec['load'].pop('units_cycle', None)
+        if spec['load'].get('step_t') is None and rng.random() < 0.5:
+            spec['load'].update(step_t=spec['_ref']['dt_si'] * (rng.randint(2, 5) + 0.5), step_A=GEN.sig(0.3 * spec['_ref']['T_out'], 3))
+        spec['ic']['pwm'] = rng.choice([0, 0.0, 0])
+        spec['coasting'] = True
+        return spec
     if m in (0, 4, 5) or rng.random() < 0.2:
         GEN.add_const_rules(rng, spec)
     if m == 6:                      # early stop on the output position / speed / motor current
